@@ -185,6 +185,7 @@ void gen_opts_default (GenOpts *o)
   o->allow_flags = o->allow_align = o->allow_64 = o->allow_params = o->allow_consts = 1;
   o->single_opcode = -1;
   o->exclude_prefix = "op:";
+  o->saturate = 12;
 }
 
 typedef struct {
@@ -228,7 +229,7 @@ static int find_vars (const ProgSpec *ps, int kind, int size, int need_written, 
     if (v->kind != kind || v->size != size) continue;
     if (no_share && kind == VK_SRC && (v->res_b >= 0 || v->up)) continue;   /* known finding: resampled/upsampled arrays are not shared */
     if (need_written == 1 && !v->written) continue;
-    if (need_written == 2 && v->written) continue;
+    if (need_written == 2 && (v->written || v->ro_dest)) continue;
     if (v->role != ROLE_ANY) continue;
     out[n++] = i;
   }
@@ -447,9 +448,18 @@ static int gen_insn (Gen *g, const VOp *op, int last)
     if ((op->flags & VOP_LOAD) && j == 0) {
       int cand[PS_MAXVARS], n = find_vars (ps, VK_SRC, op->ssz[0], 0, cand);
       if ((starts (op->name, "ldres") || starts (op->name, "loadup")) && v_excluded ("special-load-shared-source")) n = 0;   /* always a fresh array */
-      if (n == 0 || (ps->count[VK_SRC] < kind_max[VK_SRC] && vc_chance (g->c, 1, 2))) v = new_source (g, op->ssz[0]);
-      else v = -1;
-      if (v < 0 && n) v = cand[vc_pick (g->c, (uint32_t) n)];
+      v = -1;
+      /* now and then the array a load instruction reads is declared as a destination that the program never writes (a pure
+         function of the program built so far: no choice is consumed, earlier streams keep their meaning) */
+      if (ps->count[VK_DEST] < kind_max[VK_DEST] - 1 && v_mix64 ((uint64_t) ps->nins * 131u + (uint64_t) ps->nvars) % 8 == 3) {
+        v = ps_addvar (ps, VK_DEST, op->ssz[0]);
+        if (v >= 0) { ps->vars[v].ro_dest = 1; ps->vars[v].read = 1; ps->has_inplace = 1; ps->has_ro_dest = 1; }
+      }
+      if (v < 0) {
+        if (n == 0 || (ps->count[VK_SRC] < kind_max[VK_SRC] && vc_chance (g->c, 1, 2))) v = new_source (g, op->ssz[0]);
+        else v = -1;
+        if (v < 0 && n) v = cand[vc_pick (g->c, (uint32_t) n)];
+      }
     } else if ((op->flags & VOP_SCALAR) && j >= 1) {
       if (starts (op->name, "sh")) v = scalar_operand (g, op->ssz[j], ROLE_SHIFT, 0, 8 * op->ssz[0] - 1, -1);
       else if (starts (op->name, "loadoff")) v = scalar_operand (g, 4, ROLE_OFFSET, -9, 9, -1);
@@ -522,6 +532,91 @@ undo:
   return 0;
 }
 
+
+/* ---- saturation: fill the variable classes up to the library's limits (ORC_MAX_DEST_VARS, ORC_MAX_SRC_VARS, ORC_MAX_ACCUM_VARS,
+   ORC_MAX_CONST_VARS, ORC_MAX_PARAM_VARS) with simple instructions, so that the last slot of every class takes part ---- */
+static void sat_commit (Gen *g, const PInsn *in)
+{
+  ProgSpec *ps = g->ps;
+  int j, ns = op_nsrc (in->op);
+  for (j = 0; j < ns; j++) {
+    account_operand (g, in->s[j], 0);
+    if (ps->vars[in->s[j]].kind == VK_SRC || ps->vars[in->s[j]].kind == VK_DEST) ps->vars[in->s[j]].plain = 1;
+  }
+  ps->vars[in->d[0]].written = 1;
+  if (ps->vars[in->d[0]].kind == VK_DEST) { g->est_temps++; g->est_insns++; ps->vars[in->d[0]].wrote_mem = 1; }
+  if (in->op->flags & VOP_ACC) ps->has_acc = 1;
+  g->est_insns++;
+  ps->ins[ps->nins++] = *in;
+}
+
+static int sat_source (Gen *g, int size, int fill, int array_only)
+{
+  ProgSpec *ps = g->ps;
+  int cand[PS_MAXVARS], n, v = -1;
+  if (fill && ps->count[VK_SRC] < kind_max[VK_SRC]) v = new_source (g, size);
+  if (v >= 0) return v;
+  n = find_vars (ps, VK_SRC, size, 0, cand);
+  if (n) return cand[vc_pick (g->c, (uint32_t) n)];
+  if (!array_only) {
+    n = find_vars (ps, VK_TEMP, size, 1, cand);
+    if (n) return cand[vc_pick (g->c, (uint32_t) n)];
+  }
+  return new_source (g, size);
+}
+
+static void ps_saturate (Gen *g)
+{
+  ProgSpec *ps = g->ps;
+  static const char *accn[] = { "accw", "accl" };
+  static const char *addn[] = { "addb", "addw", "addl", "addq" };
+  static const char *xorn[] = { "xorb", "xorw", "xorl", "xorq" };
+  int rounds, stale = 0;
+  /* which classes are filled: any non-empty subset of {dest, source, accumulator, constant, parameter}; all five together need more
+     than the 32 registers of the C target (such programs are refused by it), so subsets matter */
+  uint32_t mask = vc_pick (g->c, 32);
+  if (mask == 0) mask = 31;
+#define SAT_ROOM() (ps->nins < PS_MAXINS - 4 && g->est_temps + ps->count[VK_TEMP] <= 58 && g->est_insns <= 94)
+  while ((mask & 4) && g->o->allow_acc && ps->count[VK_ACC] < kind_max[VK_ACC] && SAT_ROOM ()) {
+    PInsn in;
+    int k = (int) vc_pick (g->c, 2), size = k ? 4 : 2, s, a;
+    memset (&in, 0, sizeof in);
+    s = sat_source (g, size, (mask & 2) != 0, v_excluded ("acc-nonarray-source"));   /* known finding: only array elements are accumulated */
+    if (s < 0) break;
+    a = ps_addvar (ps, VK_ACC, size);
+    if (a < 0) break;
+    in.op = v_op_find (accn[k]); in.d[0] = a; in.s[0] = s;
+    sat_commit (g, &in);
+  }
+  for (rounds = 0; rounds < 40 && SAT_ROOM (); rounds++) {
+    PInsn in;
+    int k, size, s, d, c2, want_param;
+    int open_d = (mask & 1) && ps->count[VK_DEST] < kind_max[VK_DEST], open_s = (mask & 2) && ps->count[VK_SRC] < kind_max[VK_SRC];
+    int open_c = (mask & 8) && g->o->allow_consts && ps->count[VK_CONST] < kind_max[VK_CONST];
+    int open_p = (mask & 16) && g->o->allow_params && ps->count[VK_PARAM] < kind_max[VK_PARAM];
+    int before = ps->nvars - ps->count[VK_TEMP];
+    if (!open_d && !open_s && !open_c && !open_p) break;
+    if (stale >= 3) break;
+    k = (int) vc_pick (g->c, g->o->allow_64 ? 4 : 3); size = 1 << k;
+    memset (&in, 0, sizeof in);
+    s = sat_source (g, size, open_s, 0);
+    if (s < 0) continue;
+    if (open_c || open_p) {
+      want_param = open_p && (!open_c || vc_chance (g->c, 1, 2));
+      g->cur_lsize = size; g->cur_mult = 1;
+      c2 = general_const (g, size, 0, want_param);
+    } else c2 = sat_source (g, size, open_s, 0);
+    if (c2 < 0) continue;
+    d = open_d ? ps_addvar (ps, VK_DEST, size) : -1;
+    if (d < 0) d = ps_addvar (ps, VK_TEMP, size);
+    if (d < 0) break;
+    in.op = v_op_find ((vc_pick (g->c, 2) ? xorn : addn)[k]); in.d[0] = d; in.s[0] = s; in.s[1] = c2;
+    sat_commit (g, &in);
+    if (ps->nvars - ps->count[VK_TEMP] == before) stale++; else stale = 0;
+  }
+#undef SAT_ROOM
+}
+
 static const VOp *copy_op_for_size (int size)
 {
   return v_op_find (size == 1 ? "copyb" : size == 2 ? "copyw" : size == 4 ? "copyl" : "copyq");
@@ -537,7 +632,7 @@ static void ps_finalize (Gen *g)
   /* destination arrays that were only read (in place) must also be written: copy a value of that size */
   for (i = 0; i < ps->nvars; i++) {
     PVar *pv = &ps->vars[i];
-    if (pv->kind == VK_DEST && !pv->written) {
+    if (pv->kind == VK_DEST && !pv->written && !pv->ro_dest) {
       PInsn in;
       int cand[PS_MAXVARS], n = find_vars (ps, VK_TEMP, pv->size, 1, cand);
       memset (&in, 0, sizeof in);
@@ -621,8 +716,8 @@ static void ps_finalize (Gen *g)
 void ps_generate (VChoices *c, const GenOpts *o, ProgSpec *ps, VResult *r)
 {
   Gen g;
-  int i, target, tries;
-  uint32_t k;
+  int i, target, tries, sat;
+  uint32_t k, kraw;
   (void) r;
   memset (ps, 0, sizeof *ps);
   snprintf (ps->name, sizeof ps->name, "vprog");
@@ -630,12 +725,16 @@ void ps_generate (VChoices *c, const GenOpts *o, ProgSpec *ps, VResult *r)
   memset (&g, 0, sizeof g);
   g.ps = ps; g.o = o; g.c = c;
   for (i = 0; i < v_noptab; i++) if (op_allowed (&g, &v_optab[i])) g.ops[g.nops++] = i;
-  k = vc_pick (c, 8);
+  kraw = vc_u32 (c);
+  k = kraw % 8;
+  /* the saturation decision rides on the upper bits of the first choice, so streams recorded earlier keep decoding the same way */
+  sat = o->saturate > 0 && ((kraw >> 3) % (uint32_t) o->saturate) == 1;
   if (k < 4) target = 1 + (int) vc_pick (c, 4);
   else if (k < 7) target = 1 + (int) vc_pick (c, 12);
   else target = 1 + (int) vc_pick (c, (uint32_t) o->max_insns);
   if (o->min_insns > 0 && target < o->min_insns) target = o->min_insns;
   if (target > o->max_insns) target = o->max_insns;
+  if (sat && target > 12) target = 12;
   if (o->allow_2d && vc_chance (c, 1, 4)) ps->is2d = 1;
   tries = 0;
   while (ps->nins < target && tries < target * 3 && g.nops) {
@@ -644,6 +743,7 @@ void ps_generate (VChoices *c, const GenOpts *o, ProgSpec *ps, VResult *r)
     if (g.est_temps + ps->count[VK_TEMP] > 50 || g.est_insns > 88) break;
     gen_insn (&g, op, ps->nins == target - 1);
   }
+  if (sat) { ps_saturate (&g); ps->saturated = 1; }
   ps_finalize (&g);
   if (o->allow_flags) {
     uint32_t f = vc_pick (c, 16);
@@ -924,6 +1024,9 @@ void rc_generate (VChoices *c, const ProgSpec *ps, const RunOpts *o, RunCfg *rc)
       rc->a[i].misalign = (int) ((ch % 64) / (uint32_t) al) * al;
       rc->a[i].extra_stride = (int) (((ch >> 6) % 5) * (uint32_t) al * ((ch >> 9) % 3 == 0 ? 1 : 4));
       rc->a[i].fill = (int) ((ch >> 12) % 7);
+      /* bottom-up rows: the array pointer names the physically last row and the stride is negative (upper bits of the same
+         choice, so earlier streams keep their other settings) */
+      rc->a[i].neg_stride = ps->is2d && ((ch >> 20) % 4) == 3;
       if (ps->has_float && ((ch >> 16) & 1)) rc->a[i].fill = FILL_FLOATS;
       rc->a[i].seed = v_mix64 (ch);
     } else if (v->kind == VK_PARAM) {
@@ -978,8 +1081,8 @@ void rc_print (const ProgSpec *ps, const RunCfg *rc, VResult *r)
   for (i = 0; i < ps->nvars; i++) {
     const PVar *v = &ps->vars[i];
     if (v->kind == VK_SRC || v->kind == VK_DEST)
-      v_desc (r, "  %s misalign=%d extra_stride=%d fill=%d seed=%llx\n", v->name, rc->a[i].misalign,
-          rc->a[i].extra_stride, rc->a[i].fill, (unsigned long long) rc->a[i].seed);
+      v_desc (r, "  %s misalign=%d extra_stride=%d%s fill=%d seed=%llx\n", v->name, rc->a[i].misalign,
+          rc->a[i].extra_stride, rc->a[i].neg_stride ? " negative-stride" : "", rc->a[i].fill, (unsigned long long) rc->a[i].seed);
     else if (v->kind == VK_PARAM)
       v_desc (r, "  %s = 0x%llx\n", v->name, (unsigned long long) rc->pval[i]);
   }
@@ -1087,6 +1190,7 @@ int arena_build (Arena *ar, const ProgSpec *ps, const RunCfg *rc, int protect_so
       a->base = a->lo + 256 - row_lo_b + rc->a[i].misalign;
       a->base += (al - ((uintptr_t) (a->lo + 256 - row_lo_b) % (uintptr_t) al)) % (uintptr_t) al;
     }
+    if (rc->a[i].neg_stride && ps->is2d && rows >= 1) { a->base += (rows - 1) * stride; stride = -stride; }
     a->stride = (int) stride; a->size = pv->size; a->kind = pv->kind;
     a->ent_lo = lo; a->ent_hi = hi; a->rows = (int) rows;
     for (off = 0; off < (size_t) body; off++) a->lo[off] = CANARY (off);
